@@ -503,7 +503,15 @@ pub fn c18(ctx: &mut Ctx) {
                 if !ctx.mine(idx) {
                     continue;
                 }
-                let re = low.replacen(from, to, 1);
+                let re = if from == "i" && wi % 3 == 0 {
+                    // the whole word in full-width letters (a CJK input method left in full-width mode)
+                    low.chars().map(|c| if c.is_ascii_lowercase() { char::from_u32(0xFF41 + (c as u32 - 'a' as u32)).unwrap_or(c) } else { c }).collect::<String>()
+                } else if from == "s" && wi % 3 == 1 {
+                    // mathematical sans-serif letters (pasted from a formula)
+                    low.chars().map(|c| if c.is_ascii_lowercase() { char::from_u32(0x1D5BA + (c as u32 - 'a' as u32)).unwrap_or(c) } else { c }).collect::<String>()
+                } else {
+                    low.replacen(from, to, 1)
+                };
                 for text in [format!("the {re} ocean"), format!("{re} and the rest of it"), format!("a trip to {re}")] {
                     if !ctx.begin_case(|| json!({"fam": "c18-proper", "text": text}).to_string()) {
                         continue;
@@ -576,7 +584,27 @@ pub fn c12(ctx: &mut Ctx) {
             continue;
         }
         // P: a complete paragraph without double quotes, ending in a terminator + blank line
-        let mut p = match r.below(8) {
+        let mut p = match r.below(9) {
+            8 => {
+                // one sentence over the length threshold of the readability rule, with a doubled word and, further on,
+                // a misspelling: three lints of different importance that overlap in a chain
+                let n = r.range(41, 60);
+                let dup_at = r.below(n / 2);
+                let typo_at = n / 2 + r.below(n / 2);
+                let mut ws: Vec<String> = Vec::new();
+                for k in 0..n {
+                    if k == typo_at {
+                        ws.push(r.pick_str(&["teh", "recieve", "wrold", "definately"]).to_string());
+                    } else {
+                        let w = r.pick_str(&corpus.vocab).to_lowercase();
+                        if k == dup_at {
+                            ws.push(w.clone());
+                        }
+                        ws.push(w);
+                    }
+                }
+                ws.join(" ")
+            }
             0 => gen_clause(&mut r, &corpus, 9, 6),
             7 => format!("{} {}", r.pick_str(&["See Appendix", "Apples, pears,", "Smith", "Chapter", "Note", "Teh plan", "Cf. item"]), r.pick_str(&["B", "etc", "et al", "U.S", "I", "vs", "3", "x.y"])),
             6 => format!("{} {}", r.pick(&corpus.sentences).trim_end_matches(['.', '!', '?']), r.pick_str(&["plan B", "in the U.S.A", "see Mr", "item 3", "than I", "point x", "vs", "etc", "e.g", "i.e", "at 5 p.m", "for $5", "to a@b.c", "on http://x.y/z", "the 1st", "in the 1990s", "a.b.c", "No"])),
@@ -593,7 +621,8 @@ pub fn c12(ctx: &mut Ctx) {
         let term = if p.ends_with(['.', '!', '?']) { "" } else { *r.pick(&[".", "!", "?"]) };
         let sep = *r.pick(&["\n\n", "\n\n", "\n\n\n"]);
         let p = format!("{p}{term}{sep}");
-        let d = match r.below(9) {
+        let d = match r.below(10) {
+            9 => format!("We went to new york and and saw teh {} there. {}", r.pick_str(&corpus.vocab), r.pick(&corpus.sentences)),
             6 => p.trim_end().to_string(),
             7 => {
                 // the same words in another capitalisation
@@ -612,6 +641,36 @@ pub fn c12(ctx: &mut Ctx) {
         }
         ctx.report.evaluations += 1;
         let plen = p.chars().count();
+        // every eighth pair through the JS-facing linter (its own overlap resolution sits between the rules and the user)
+        let via_js = i % 8 == 0;
+        if via_js {
+            let res = guarded(|| {
+                let run = |t: &str, shift: usize| -> Vec<String> {
+                    let mut l = harper_wasm::Linter::new(harper_wasm::Dialect::American);
+                    let mut v: Vec<String> = l.lint(t.to_string(), harper_wasm::Language::Plain).iter().map(|x| format!("{}..{} {} {}", x.span().start + shift, x.span().end + shift, x.lint_kind(), x.message())).collect();
+                    v.sort();
+                    v
+                };
+                let w = run(&whole, 0);
+                let mut e = run(&p, 0);
+                e.extend(run(&d, plen));
+                e.sort();
+                (w, e)
+            });
+            if let Ok((w, e)) = res {
+                ctx.report.count("pairs_through_js_api", 1);
+                if w != e {
+                    let only_w: Vec<&String> = w.iter().filter(|x| !e.contains(x)).collect();
+                    let only_e: Vec<&String> = e.iter().filter(|x| !w.contains(x)).collect();
+                    let first = only_w.first().or(only_e.first()).map(|s| s.to_string()).unwrap_or_default();
+                    let side = if !only_w.is_empty() { "extra-in-whole" } else { "missing-in-whole" };
+                    let rest: String = first.splitn(2, ' ').nth(1).unwrap_or("").chars().take(70).collect();
+                    ctx.report.finding("C12", &format!("js.{side}@{}", norm_msg(&rest)), whole.len(), || json!({"P": p, "D": d, "via": "harper_wasm::Linter"}), || {
+                        format!("only in Linter::lint(P++D): {:?}; only in Linter::lint(P)+shift(Linter::lint(D)): {:?}", only_w, only_e)
+                    });
+                }
+            }
+        }
         let res = guarded(|| {
             // fresh linter per call: cache effects belong to C05
             let lw = fresh(&dict).lint(&Document::new(&whole, &PlainEnglish, &dict));
